@@ -194,6 +194,8 @@ def info_schema(ctx):
             fed = [k for k, a in enumerate(bt["args"]) if a.get("pl") and a["pl"]["l"] in D and k > 0]
             ctrl = False
             for (e, op, v, g) in So.facts_at(bb):
+                if "Try>::branch)" in e:
+                    continue  # `?`: everything after it is trivially control dependent on it
                 d = o.blocks[g]["term"]["discr"]
                 if d.get("pl") and d["pl"]["l"] in D:
                     ctrl = True
@@ -268,7 +270,7 @@ def sep1(ctx):
         joins += [args for b, n, args, t in symcalls(prog, g, S) if n.endswith("<impl [T]>::join")]
     So = Sym(prog, o)
     splits = [args for b, n, args, t in symcalls(prog, o, So) if n.endswith("<impl str>::split") and "c:59" in args[1]]
-    ctx.check(len(joins) == 1 and "s:';'" in joins[0][1] and len(splits) == 1, R, "separator is ';' on both sides", "", "enumeration separator differs: join %s, split %s" % (joins, splits), f.loc(), fn=f.name)
+    ctx.check(len(joins) == 1 and ("s:';'" in joins[0][1] or "c:59" in joins[0][1]) and len(splits) == 1, R, "separator is ';' on both sides", "", "enumeration separator differs: join %s, split %s" % (joins, splits), f.loc(), fn=f.name)
     guard = False
     for g in prog.unit(f):
         S = Sym(prog, g)
